@@ -328,7 +328,7 @@ def main():
     add(family='rw', nreq=3, lat=1, nports=1, sink_delay=1, stalls=False)
     add(family='rw', nreq=2, lat=1, nports=2, sink_delay=0, stalls=False)
     for fam in MS.FAMILIES:
-      add(family=fam, nreq=2, lat=1, nports=1, sink_delay=2, stalls=True, variant='rtl')
+      add(family=fam, nreq=2, lat=1, nports=1, sink_delay=2, stalls=True, variant='rtl', stall_budget=1)
       add(family=fam, nreq=2, lat=0, nports=1, sink_delay=0, stalls=False, variant='rtl')
     add(family='rw', nreq=1, lat=2, nports=2, sink_delay=1, stalls=False, variant='rtl')
   for it, r in pmap(item_mem, items, item_timeout=1500 if tier == 'quick' else 6000):
